@@ -41,6 +41,7 @@ def gen_data_family(rng, n_roots=(1, 2)):
     fdtype = rng.pick(['float64'] * 7 + ['float32', 'int64'])      # dtype of the measurements handed to the constructor (per family)
     ctyp = rng.pick(['int', 'str', 'float'])      # one label type per descriptor across the family (numpy coerces mixed columns)
     n_ch = rng.pick([1, 1, 2, 3, 4, 5])
+    fpar = rng.pick([None, None, None, 'list', 'array'])
     cu = rng.sample(range(0, 31), n_ch)
     ch_desc = {'roi': gen.gen_grouping(rng, n_ch), 'name': {'values': ['ch%d' % u for u in cu], 'container': rng.pick(['list', 'array'])}}
     if rng.chance(0.15):
@@ -62,6 +63,11 @@ def gen_data_family(rng, n_roots=(1, 2)):
                 'ch_desc': ch_desc, 'time_desc': {}, 'order': rng.pick(['F', 'S']) if rng.chance(0.3) else 'C',
                 'dtype': fdtype,
                 'descriptors': {'subj': rng.pick(['s1', 's2']), 'sess': rng.pick([1, 2])}}
+        if fpar:
+            # a dataset-level descriptor holding several numbers (the parameter vector a simulation stores, a voxel size):
+            # the same for the whole family, as list or as array
+            spec['descriptors']['par'] = [1.0, 2.5]
+            spec['par_array'] = fpar == 'array'
         if rng.chance(0.15):
             # descriptors with one *row* per item (an (onset, duration) pair per observation, a position per channel)
             spec['obs_desc']['xy'] = {'values': [[float(u), u + 0.5] for u in ou], 'container': 'array'}
@@ -101,6 +107,13 @@ def _layout(m, spec):
     return m
 
 
+def _dlevel(spec):
+    d = dict(spec['descriptors'])
+    if 'par' in d:
+        d['par'] = np.array(d['par']) if spec.get('par_array') else list(d['par'])
+    return d
+
+
 def build_dataset(spec):
     from rsatoolbox.data import Dataset, TemporalDataset
     ou, cu, tu = spec['ou'], spec['cu'], spec['tu']
@@ -116,11 +129,11 @@ def build_dataset(spec):
         td = {'time': np.array([tval(t) for t in tu])}
         for k, d in spec['time_desc'].items():
             td[k] = _cont(d)
-        return TemporalDataset(m, descriptors=dict(spec['descriptors']), obs_descriptors=obs, channel_descriptors=ch,
+        return TemporalDataset(m, descriptors=_dlevel(spec), obs_descriptors=obs, channel_descriptors=ch,
                                time_descriptors=td)
     m = vscale(spec) * np.array([[encd(o, c, None) for c in cu] for o in ou], dtype=float).reshape(len(ou), len(cu))
     m = _layout(m, spec)
-    return Dataset(m, descriptors=dict(spec['descriptors']), obs_descriptors=obs, channel_descriptors=ch)
+    return Dataset(m, descriptors=_dlevel(spec), obs_descriptors=obs, channel_descriptors=ch)
 
 
 def _scalar_valued(v):
@@ -135,13 +148,15 @@ class DataOps:
         self.ctx = pool.ctx
         self.obs_tab, self.ch_tab, self.time_tab = {}, {}, {}
         self.vs = vscale(family['roots'][0])
+        self.par = family['roots'][0].get('descriptors', {}).get('par')      # family-wide dataset-level vector (or None)
         for spec in family['roots']:
             for i, o in enumerate(spec['ou']):
                 self.obs_tab[o] = {k: d['values'][i] for k, d in spec['obs_desc'].items()}
                 # what the root says about all its rows at dataset level (subject, session) belongs to each row too: after
                 # any history it must be found on the row or, where it is the same for all rows, at dataset level
                 for k, v in spec.get('descriptors', {}).items():
-                    self.obs_tab[o].setdefault(k, v)
+                    if k != 'par':
+                        self.obs_tab[o].setdefault(k, v)
             for j, c in enumerate(spec['cu']):
                 self.ch_tab[c] = {k: d['values'][j] for k, d in spec['ch_desc'].items()}
             for k_, t in enumerate(spec['tu']):
@@ -202,6 +217,10 @@ class DataOps:
         dims_ok = obj.n_obs == len(rows) and obj.n_channel == len(cols) and (times is None or obj.n_time == len(times))
         if not dims_ok:
             return rep('shape', f'n_obs/n_channel/n_time attributes inconsistent with descriptors')
+        if self.par is not None and not sem.get('par_dropped'):
+            got_par = obj.descriptors.get('par')
+            if got_par is None or not np.array_equal(np.asarray(got_par, dtype=float), np.asarray(self.par, dtype=float)):
+                return rep('descriptors', f'dataset-level descriptor par = {self.par} (the same in every source) is {got_par!r} in the result')
         for axis, got, exp, mode in (('obs', rows, sem['rows'], order[0]), ('channel', cols, sem['cols'], order[1]),
                                      ('time', times, sem['times'], order[2])):
             if (got is None) != (exp is None):
@@ -828,6 +847,8 @@ class DataOps:
             return False     # from_df(channels=None) recognises channel columns by their float dtype
         if any(np.asarray(v, dtype=object).ndim > 1 for v in list(src.obj.obs_descriptors.values()) + list(src.obj.channel_descriptors.values())):
             return False     # a table column holds one scalar per row: row-valued descriptors have no DataFrame form
+        if any(isinstance(v, (list, tuple, np.ndarray)) for v in src.obj.descriptors.values()):
+            return False     # ... nor has a dataset-level descriptor that is a vector
         if not o['flag'] and (any(isinstance(x, (float, np.floating)) for v in src.obj.obs_descriptors.values() for x in v)
                               or any(isinstance(v, (float, np.floating)) for v in src.obj.descriptors.values())):
             return False     # from_df(channels=None) takes every float column for a channel: float labels not admissible
@@ -871,6 +892,8 @@ class DataOps:
             return False
         cd = cds[o['a'][0] % len(cds)]
         if any(np.asarray(v, dtype=object).ndim > 1 for v in src.obj.obs_descriptors.values()):
+            return False
+        if any(isinstance(v, (list, tuple, np.ndarray)) for v in src.obj.descriptors.values()):
             return False
         try:
             df = src.obj.to_df(channel_descriptor=cd)
